@@ -39,7 +39,7 @@ def make_logs(ctx, g):
     r = ctx.rng
     shapes = list(LOG_SHAPES_QUICK)
     if ctx.thorough:
-        for _ in range(54):
+        for _ in range(38):
             n = r.choice([1, 2, 3, 4, 5, 7])
             sh = []
             for _ in range(n):
@@ -273,7 +273,7 @@ def run(ctx):
                                           % (name, kind, k, m if m.get('crash') else (m['load'], m['msgs'][:4], m['p1i'] and len(m['p1i']) // 2), f1['msgs'][:4], f1['p1i'] and len(f1['p1i']) // 2), case)
     for p in plan[:: max(1, len(plan) // 4)][:4]:
         ctx.sample({'log': [kk for kk, _ in logs[p[0]]], 'index_cut_at': p[1], 'history': p[2], 'ignore_index': p[5]})
-    ctx.coverage['rule'] = ('%d generated logs (junk between/after messages, type-0 messages in the middle and last, single message, cut tail); the saved index of each log cut at EVERY '
+    ctx.coverage['rule'] = ('%d logs (6 fixed shapes + corpus, thorough: + 38 random; junk between/after messages, type-0 messages in the middle and last, single message, cut tail); the saved index of each log cut at EVERY '
                             'byte length 0..len (exhaustive); after each cut the data-file histories: unchanged, message appended, junk appended, truncated to 0, truncated to %s, '
                             'truncated inside a message; REPLACED by a different file of different size (first two messages swapped, messages reversed, junk stripped / prepended / appended, first / last message resized, '
                             'tail junk stripped after each, two other logs) next to the complete index (SPEC applies) and next to the index cut at a record boundary (model only); data files named '
